@@ -79,7 +79,7 @@ def gen_cases(ctx):
                 for tf in ("none", "flood"):
                     yield {"tc": tc, "tr": tr, "traffic": tf, "progress": [], "raise_at": None, "T": Tx}
     # 2. progress streams
-    prog_kinds = ["right", "foreign", "right_missing", "right_total_msg", "foreign_int", "right_null_params"]
+    prog_kinds = ["right", "foreign", "right_missing", "right_total_msg", "foreign_int", "right_null_params", "right_zero"]
     for tr in (None, 0.3, 0.8, 1.0, T - 0.01):
         for tc in (None, 0.6, 1.0):
             for pattern in range(12 if not fine else 60):
@@ -157,6 +157,8 @@ def exec_case(ctx, case: Dict[str, Any]) -> None:
                 p: Dict[str, Any] = {"progressToken": tok, "progress": float(i) + 0.5}
                 if kind == "right_missing":
                     del p["progress"]
+                if kind == "right_zero":
+                    p.update(progress=0, total=0, message="")   # falsy but present
                 if kind == "right_total_msg":
                     p["total"] = 10.0
                     p["message"] = f"step {i}"
@@ -332,6 +334,8 @@ def exec_case(ctx, case: Dict[str, Any]) -> None:
         def args_ok(entry, spec) -> bool:
             t, kind, i = spec
             p, total, msg = entry["args"]
+            if kind == "right_zero":
+                return (p == 0 and not isinstance(p, bool) and total == 0 and not isinstance(total, bool) and msg == "")
             if kind == "right_missing":
                 if p not in (0, None):
                     return False
